@@ -1,6 +1,8 @@
 """C04 — a failing request fails alone, with its original error (Engine B over the real workers; partial)."""
 import time
 
+from engine_a.driver import run_condition
+
 from .common import finish, load_known, run_b_job, run_jobs
 
 PID = 'C04'
@@ -25,6 +27,8 @@ def configs(tier):
             (E, dict(kind='ensemble', members=2, requests=2, fail_fast=False, member_fail=True, upstream_fail=True)),
             (E, dict(kind='ensemble', members=3, requests=1, fail_fast=True, member_fail=True)),
             (E, dict(kind='ensemble', members=3, requests=1, fail_fast=False, member_fail=True)),
+            # a batching stage downstream of a failing stage: the upstream failure reaches the batch collector
+            dict(stages=[1, 1], init_fail=False, work_fail=True, callers=1, batch_size=2, batch_stage=1, capacity=2),
             dict(stages=[1, 1], init_fail=False, work_fail=True, pre_fail=True, callers=2),
             dict(stages=[2, 1], init_fail=False, work_fail=True, callers=2),
             dict(stages=[1], init_fail=False, work_fail=True, pre_fail=True, callers=3, capacity=3),
@@ -38,7 +42,13 @@ def run(tier):
     jobs = [(run_b_job, ({'property': PID, 'scenario': c[0] if isinstance(c, tuple) else S,
                           'params': c[1] if isinstance(c, tuple) else c, 'known': known},
                          3300 if tier == 'thorough' else 1500)) for c in configs(tier)]
+    # the batch collector's loop as a unit (CrossHair): which element kinds reach a batch, which are short-circuited
+    jobs.append((run_condition, ({'module': 'harness.C09_batch', 'func': 'check_build_input_batches',
+                                  'timeout': 600 if tier == 'thorough' else 200, 'property': PID},)))
     results = run_jobs(jobs)
+    for r in results:
+        if 'module' in (r.get('spec') or {}):
+            r['spec'] = {'params': r['spec']}
     return finish(
         PID, tier, 'model_checking', results, t0,
         explanation='Real Worker._start_single/stream/call (per-element try/except, preprocess short-circuit, RemoteException '
@@ -53,7 +63,10 @@ def run(tier):
                     'exactly one outcome per request and the documented rule: fail_fast -> EnsembleError as soon as a member '
                     'failed (entries collected so far intact), otherwise the list in member order with the failures in place, '
                     'EnsembleError when all failed; upstream failures are short-circuited unchanged; the catalog is empty at the '
-                    'end; stop() ends all threads.',
+                    'end; stop() ends all threads. Unit (CrossHair, harness/C09_batch.py:check_build_input_batches): the real '
+                    'Worker._build_input_batches loop over a symbolic sequence of element kinds (input / exception object / '
+                    'RemoteException / rejected by preprocess): only genuine accepted inputs reach a batch, every failed element is '
+                    'short-circuited to the output once with its own error, preprocess never sees a failure.',
         assumptions=['thread-backed servlets: the exception object travels by reference (the process hop = pickling is C15\'s subject)',
                      'stub contracts of the primitives; servlet trees: plain and sequential; ensemble and switch over contract members',
                      'the ensemble catalog (one mutable dict object shared by two threads) is modelled as a tracked dict plus one '
